@@ -159,7 +159,15 @@ fn run_history(start: &Package, start_last: Last, hist: &[Op], keys: &[Key], key
                 last = Last::None;
             }
             Op::Reparse => {
-                let b = pkg_bytes(&pkg).map_err(|e| format!("write fails: {e}"))?;
+                // written into a Vec, or into a writer that implements write()/flush() only and takes a
+                // few bytes per call
+                let b = if (hist.len() + step) % 2 == 0 {
+                    pkg_bytes(&pkg).map_err(|e| format!("write fails: {e}"))?
+                } else {
+                    let mut w = crate::util::PlainWriter { out: Vec::new(), max: [1usize, 5, 64, 4096][(hist.len() * 3 + step) % 4] };
+                    pkg.write(&mut w).map_err(|e| format!("write into a plain writer fails: {e}"))?;
+                    w.out
+                };
                 // through a slice, or through buffered readers whose buffer runs dry at every kind of
                 // position (capacity 1: at every byte; 8 / 16 / 96: at the segment boundaries)
                 let caps = [0usize, 1, 3, 8, 16, 96, 4096];
